@@ -4,6 +4,7 @@ import p_wire
 import p_metadata
 import p_geometry
 import p_tracker
+import p_sched
 
 HOOK_COMMITS = ["ad8b203", "23d7fe8", "8de280d", "16a7335"]
 
@@ -16,6 +17,13 @@ _PS_NOTE = ("Trusted: TLC, the Go harness (gate scheduler, content PRF, projecti
 _B4 = "TLC-enumerated case table (TLA+ decision function over boundary classes) executed on the real code, outcomes checked by TLC against the specification's invariants"
 
 REGISTRY = {
+    "C09": {"run": p_sched.run, "design": "DESIGN.md section 3 C09",
+            "technique": "TLC exhaustive model checking of Sched.tla + TLC-simulated behaviours applied to the real torrent/peer handlers (stepped mailboxes) + TLC evaluation of Conservation/Availability on the observed bookkeeping",
+            "level": "Sched.tla (explicit mailboxes both ways, request/cancel/choke/reject/expiry/piece-payload classes, bitmap changes) is model-checked "
+                     "exhaustively for one peer with the full message alphabet and two peers with a reduced one; simulated two-peer behaviours are applied "
+                     "to tor.handleEvent/request and peer.handleEvent/handleMessage/expireRequests/maybeRequest with harness-owned mailboxes; at every "
+                     "quiescent point inFlight and available are compared with what the peers really hold/advertise, in Go and again by TLC.",
+            "note": "Trusted: TLC, the stepping shims (export_verif files), fakepeer. Exit paths of peer.Run and Go select races are outside this binding."},
     "C15": {"run": p_tracker.run, "design": "DESIGN.md section 3 C15",
             "technique": "TLC exhaustive model checking of Tracker.tla / UdpExchange.tla + replay of every edge / every reply sequence on the real tracker code against scripted local trackers",
             "level": "Tracker.tla (lock, readiness with the 5/15/30 min rules, reply classes, minimum-gap history) and UdpExchange.tla (4-attempt "
